@@ -15,7 +15,15 @@ pub const LOOKAHEAD: usize = 64;
 fn gen(t: &mut Tape, tier: Tier) -> Scenario {
     let mut sc = Scenario::new("c15");
     let long = t.below(10) == 0;
-    let b = if long { gen_long(t, 0) } else { gen_lzma(t, 0, 3000) };
+    // a fifth of the streams produce several windows of the smallest dictionary,
+    // so that the window reaches the sink while writing (not only at finish)
+    let b = if long {
+        gen_long(t, 0)
+    } else if t.below(5) == 0 {
+        gen_lzma(t, 0, 20_000)
+    } else {
+        gen_lzma(t, 0, 3000)
+    };
     let mut opts = OptSpec {
         allow_incomplete: true,
         ..Default::default()
@@ -65,6 +73,8 @@ fn gen(t: &mut Tape, tier: Tier) -> Scenario {
     sc.set_i("hl", hl as u64);
     sc.set_l("ops", ops);
     sc.set_l("symtab", tbl);
+    // the sink may accept only part of each write (pipe, socket, bounded buffer)
+    sc.set_l("sink_script", crate::gen::draw_script(t));
     let every = if tier == Tier::Thorough { 60 } else { 600 };
     if t.below(every) == 0 && sc.b("input").len() <= 1200 {
         sc.set_i("enumerate_prefixes", 1);
@@ -100,7 +110,7 @@ fn one_prefix(sc: &Scenario, k: usize, ops: &[u64], ctx: &mut Ctx) -> Option<Vio
     let opts = OptSpec::load(sc);
     let input = &sc.b("input")[..k];
     let expect = Rc::new(sc.b("expect").to_vec());
-    let (sink, st) = SimSink::new(Some(expect.clone()), &[], Faults::none(), Faults::none());
+    let (sink, st) = SimSink::new(Some(expect.clone()), sc.l("sink_script"), Faults::none(), Faults::none());
     let o = run_stream(input, ops, &opts, sink, &st, false);
     let v = stream_verdict(&o);
     let s = st.borrow();
@@ -129,6 +139,9 @@ fn one_prefix(sc: &Scenario, k: usize, ops: &[u64], ctx: &mut Ctx) -> Option<Vio
                 format!("prefix of {} bytes (header {} + preamble 5 present): {}", k, hl, v.short()),
             );
         }
+    }
+    if s.short_writes > 0 {
+        ctx.stats.hit("probe.sink_accepted_only_part_of_a_write");
     }
     if v.is_ok() {
         let req = required_output(sc.l("symtab"), k);
